@@ -92,7 +92,8 @@ def _check_dejitter(case):
     return 1, "moved%d" % min(nmoved, 3), (kind, rkind, md, nmoved, exact, tie), viols
 
 
-ALIGN_NAMES = (("a", "ref", "p"), ("re", "ref", "f"), ("refs", "ref", "e"), ("word", "words", "or"))
+# (the last two: Praat's unnamed tier - the empty string is a name like any other - as the reference, which is the second tier, and as a subject)
+ALIGN_NAMES = (("a", "ref", "p"), ("re", "ref", "f"), ("refs", "ref", "e"), ("word", "words", "or"), ("a", "", "p"), ("", "ref", "0"))
 
 
 def _check_align(case):
@@ -297,7 +298,7 @@ def parts(tier):
         for s1 in sets[::stride * 3]:
             for pts in D.point_sets(G[::2], 2):
                 for ref in refs:
-                    for ni in (1, 2, 3):
+                    for ni in (1, 2, 3, 4, 5):
                         yield (s1, pts, ref, 0.25, ni)
 
     sets3 = D.interval_sets(D.unit_grid(5), 3)
